@@ -16,7 +16,9 @@ PROP = "C15"
 LEVEL = "exploration"
 P = 0.1
 PROFILES = ["clean", "multi", "late", "lossy", "stall", "names", "none"]
-NAMES = ["Spa", "My Spa", "Spa du Châlet", "Ünïcödé ÿ", "A|B", "|lead", "trail|", "a|b|c", "Bad|Name Spa", "x" * 40, "  ", "Udp Test Spa"]
+NAMES = ["Spa", "My Spa", "Spa du Châlet", "Ünïcödé ÿ", "A|B", "|lead", "trail|", "a|b|c", "Bad|Name Spa", "x" * 40, "  ", "Udp Test Spa",
+         # every latin-1 code point is a legal name byte, also the C1 range 0x80-0x9f that other single-byte code pages map differently
+         "Spa \x80 \x85", "\x81\x8d\x8f\x90\x9d", "C1 \x9f end", "\xa0\xff"]
 
 
 def gen_case(seed: int, tier: str, index: int) -> Dict[str, Any]:
@@ -93,7 +95,8 @@ class HelloResponder:
         self.addr = (spec["ip"], SPA_PORT)
         self.ident = spec["ident"].encode("latin1")
         self.name = spec["name"]
-        self.payload = GeckoHelloProtocolHandler.response(self.ident, self.name).send_bytes
+        # the reply is built here, independently of the library's encoder: <HELLO>identifier|name</HELLO>, name in latin-1
+        self.payload = b"<HELLO>" + self.ident + b"|" + self.name.encode("latin-1") + b"</HELLO>"
         self.n = 0
         world.net.bind(self.addr, self)
 
